@@ -12,18 +12,24 @@ from vmon.wsgi import make_environ, call_app
 
 RULE = ('exhaustive units: every pair of method subsets of {GET,HEAD,POST,PUT,ANY} on two routes (one static, one with a wildcard) x request '
         'verbs {GET,HEAD,POST,PUT,DELETE,get,Head,ANY,BREW} x paths {route 1, route 2, unknown path, hook-only prefix}; sequence units: random '
-        'operation sequences over 4 rules - route(method=str|list, upper/lower/mixed case, ANY), duplicate registration (must be rejected '
+        'pair units: every ordered pair of 11 method names (incl. extension verbs whose names contain one another: PATCH/PROPPATCH, LOCK/UNLOCK) on one route, '
+        'one of them removed (str / list / RouteMethod.remove) or re-registered with overwrite=True (same rule text or the rule spelled with another wildcard name); '
+        'operation sequences over 4 rules (two of them also spelled with another wildcard name) - route(method=str|list, upper/lower/mixed case, ANY), duplicate registration (must be rejected '
         'atomically), overwrite=True, Route.remove_method, RouteMethod.remove, method shortcuts - each followed by a probe of every verb x path. '
         'Non-trivial = the dispatch needed a fallback, a 405 or a case conversion; distinct = distinct (table, verb, path).')
 REQUIRED = ['own_verb', 'head_to_get', 'to_any', 'head_to_any', 'status_405', 'status_404', 'allow_compared', 'lowercase_request_verb',
-            'lowercase_registration', 'rejected_duplicate', 'overwritten', 'removed_method', 'head_no_body', 'resolve_compared', 'empty_table_405']
+            'lowercase_registration', 'rejected_duplicate', 'overwritten', 'removed_method', 'head_no_body', 'resolve_compared', 'empty_table_405', 'respelled_rule']
 EXHAUSTIVE = {'quick': False, 'thorough': True,
               'quick_note': 'complete for one route: all 32 method subsets x 9 verbs x 4 paths',
               'thorough_note': 'complete for two routes: all 32x32 pairs of method subsets x 9 verbs x 4 paths'}
 ASSUMPTIONS = ['a route whose methods were all removed still matches its path (405 with an empty Allow), as the statement says 404 is never given for a path that matches a route',
-               'rules are kept clear of C01 corner cases (no CR, one rule text per pattern)']
+               'rules are kept clear of C01 corner cases (no CR); a rule spelled with another wildcard name addresses the same route and method table']
 
 METHODS = ['GET', 'HEAD', 'POST', 'PUT', 'ANY']
+# extension verbs, some of whose names contain one another (PATCH/PROPPATCH, LOCK/UNLOCK, GET/GETLOCK)
+EXT = ['DELETE', 'PATCH', 'PROPPATCH', 'LOCK', 'UNLOCK', 'OPTIONS', 'GETLOCK']
+# the same route spelled with another wildcard name: one route, one method table
+CANON = {'/w/<y>': '/w/<x>', '/w/<y>/tail': '/w/<x>/tail'}
 VERBS = ['GET', 'HEAD', 'POST', 'PUT', 'DELETE', 'get', 'Head', 'ANY', 'BREW']
 
 
@@ -66,13 +72,16 @@ class World:
         """methods as given by the user (str or list, any case).  Returns True if accepted."""
         hid, h = self.handler()
         up = [methods.upper()] if isinstance(methods, str) else [m.upper() for m in methods]
+        spelled, rule = rule, CANON.get(rule, rule)
+        if spelled != rule:
+            ctx.count('respelled_rule')
         tbl = self.tables.get(rule)
         clash = tbl is not None and any(m in tbl for m in up)
         try:
             if via == 'shortcut':
-                getattr(self.app, methods.lower())(rule, overwrite=overwrite)(h)   # decorator form of the shortcut
+                getattr(self.app, methods.lower())(spelled, overwrite=overwrite)(h)   # decorator form of the shortcut
             else:
-                self.app.route(rule, methods, h, overwrite=overwrite)
+                self.app.route(spelled, methods, h, overwrite=overwrite)
             accepted = True
         except Exception as e:  # noqa
             accepted = False
@@ -94,10 +103,11 @@ class World:
         return accepted
 
     def remove_method(self, ctx, rule, method, via_object=False):
+        spelled, rule = rule, CANON.get(rule, rule)
         tbl = self.tables.get(rule)
         if tbl is None:
             return
-        route = self.app.router[{rule}]
+        route = self.app.router[{spelled}]
         if route is None:
             ctx.violation('registered-route-not-found-by-rule', rule, None)
             return
@@ -223,6 +233,38 @@ OPS_RULES = ['/r1', '/w/<x>', '/r1/sub', '/w/<x>/tail']
 OPS_PATHS = [('/r1', '/r1'), ('/w/<x>', '/w/v'), ('/r1/sub', '/r1/sub'), ('/w/<x>/tail', '/w/v/tail'), (None, '/zzz'), (None, '/hookonly')]
 
 
+UNCANON = {v: k for k, v in CANON.items()}
+
+
+def pair_unit(ctx, unit):
+    """Every ordered pair (a, b) of method names on one route beside GET: remove a (three ways) or re-register a with
+    overwrite=True (same rule text / the rule spelled with another wildcard name); b and GET must be untouched."""
+    names = METHODS[1:] + EXT
+    for a in names:
+        for b in names:
+            if a == b:
+                continue
+            for how in ('remove_str', 'remove_list', 'remove_obj', 'overwrite', 'overwrite_respelled', 'add_respelled'):
+                w = World()
+                rule = '/w/<x>'
+                w.register(ctx, rule, 'GET')
+                w.register(ctx, rule, [a, b] if how != 'add_respelled' else a)
+                if how == 'remove_str':
+                    w.remove_method(ctx, rule, a)
+                elif how == 'remove_list':
+                    w.remove_method(ctx, rule, [a])
+                elif how == 'remove_obj':
+                    w.remove_method(ctx, rule, a, via_object=True)
+                elif how == 'overwrite':
+                    w.register(ctx, rule, a, overwrite=True)
+                elif how == 'overwrite_respelled':
+                    w.register(ctx, '/w/<y>', a, overwrite=True)
+                else:
+                    w.register(ctx, '/w/<y>', b)
+                probe(ctx, w, [(rule, '/w/v'), (None, '/w')], ['GET', 'HEAD', a, b, a.lower(), 'BREW'],
+                      lambda verb, path: {'unit': {'kind': 'pair1', 'a': a, 'b': b, 'how': how, 'verb': verb, 'path': path}})
+
+
 def seq_unit(ctx, unit):
     rng = ctx.rng
     for si in range(unit['n']):
@@ -230,9 +272,11 @@ def seq_unit(ctx, unit):
         hist = []
         for step in range(rng.randint(3, 14)):
             rule = rng.choice(OPS_RULES)
+            if rule in UNCANON and rng.random() < 0.3:
+                rule = UNCANON[rule]
             op = rng.choice(['add', 'add', 'add_list', 'add_lower', 'dup', 'overwrite', 'remove', 'remove_obj', 'remove_list', 'shortcut'])
             if op == 'add':
-                m = rng.choice(METHODS + ['DELETE', 'PATCH'])
+                m = rng.choice(METHODS + EXT)
                 w.register(ctx, rule, m)
                 hist.append((op, rule, m))
             elif op == 'add_list':
@@ -255,18 +299,18 @@ def seq_unit(ctx, unit):
                     if w.tables[rule] != before:
                         ctx.violation('harness-model-changed-on-rejected-add', str(hist), None)
             elif op == 'overwrite':
-                m = rng.choice(METHODS)
+                m = rng.choice(METHODS + EXT[:3])
                 w.register(ctx, rule, m, overwrite=True)
                 hist.append((op, rule, m))
             elif op in ('remove', 'remove_obj', 'remove_list'):
                 t = w.tables.get(rule)
                 if t is not None:
                     if op == 'remove_list':
-                        ms = rng.sample(METHODS, 2)
+                        ms = rng.sample(METHODS + EXT, 2)
                         w.remove_method(ctx, rule, ms)
                         hist.append((op, rule, ms))
                     else:
-                        m = rng.choice(METHODS)
+                        m = rng.choice(sorted(t)) if t and rng.random() < 0.6 else rng.choice(METHODS + EXT)
                         w.remove_method(ctx, rule, m, via_object=(op == 'remove_obj'))
                         hist.append((op, rule, m))
             else:
@@ -275,17 +319,17 @@ def seq_unit(ctx, unit):
                 hist.append((op, rule, m))
             if step % 3 == 2:
                 paths = [(r if r in w.tables else None, p) for r, p in OPS_PATHS]
-                probe(ctx, w, paths, rng.sample(VERBS, 4), lambda verb, path: {'unit': {'kind': 'note', 'history': hist[:], 'verb': verb, 'path': path}})
+                probe(ctx, w, paths, rng.sample(VERBS + EXT, 5), lambda verb, path: {'unit': {'kind': 'note', 'history': hist[:], 'verb': verb, 'path': path}})
         paths = [(r if r in w.tables else None, p) for r, p in OPS_PATHS]
-        probe(ctx, w, paths, VERBS, lambda verb, path: {'unit': {'kind': 'note', 'history': hist[:], 'verb': verb, 'path': path}}, sample=(si % 50 == 0))
+        probe(ctx, w, paths, VERBS + EXT, lambda verb, path: {'unit': {'kind': 'note', 'history': hist[:], 'verb': verb, 'path': path}}, sample=(si % 50 == 0))
         if si % 100 == 0:
             ctx.sample({'operation_history': hist, 'final_tables': w.tables})
 
 
 def plan(tier, seed):
     if tier == 'quick':
-        return [{'kind': 'exh', 's1': list(range(32)), 'two': False}] + [{'kind': 'seq', 'n': 120, 'sub': i} for i in range(6)]
-    return [{'kind': 'exh', 's1': [i], 'two': True} for i in range(32)] + [{'kind': 'seq', 'n': 1500, 'sub': i} for i in range(16)]
+        return [{'kind': 'exh', 's1': list(range(32)), 'two': False}, {'kind': 'pair'}] + [{'kind': 'seq', 'n': 120, 'sub': i} for i in range(6)]
+    return [{'kind': 'exh', 's1': [i], 'two': True} for i in range(32)] + [{'kind': 'pair'}] + [{'kind': 'seq', 'n': 1500, 'sub': i} for i in range(16)]
 
 
 def run_unit(ctx, unit):
@@ -294,6 +338,8 @@ def run_unit(ctx, unit):
         exh_unit(ctx, unit)
     elif k == 'seq':
         seq_unit(ctx, unit)
+    elif k in ('pair', 'pair1'):
+        pair_unit(ctx, unit)
     elif k == 'exh1':
         exh_unit(ctx, {'s1': [unit['s1']], 'two': True})
     else:
